@@ -1,7 +1,8 @@
 (** C19 — Assets trade only while they belong to the universe. *)
 From Coq Require Import ZArith QArith String List.
 From QS Require Import theories.Num theories.Position theories.Portfolio theories.Fees theories.Sizer theories.PCM
-  theories.Backtest proofs.SizerProofs proofs.PcmProofs proofs.SessionSignals.
+  theories.Broker theories.Backtest proofs.SizerProofs proofs.PcmProofs proofs.BacktestProofs proofs.SessionSignals
+  proofs.Touch proofs.SessionUniverse.
 Import ListNotations.
 Open Scope Z_scope.
 
@@ -50,6 +51,73 @@ Theorem members_get_the_signal_non_members_nothing :
     (~ In a (universe_assets (c_univ cfg) t) -> In a (map fst fw) -> In a held /\ w_find a fw = Some 0%Q).
 Proof. exact single_signal_allocation. Qed.
 Print Assumptions members_get_the_signal_non_members_nothing.
+
+(** * Whole sessions (every configuration, schedule, sizing mode and market; the run may raise later) *)
+
+(** a broker update - whatever its outcome - creates positions, pending orders and fills only in assets
+    that already had a position or a pending order; a submission adds at most its own asset *)
+Theorem an_update_touches_no_new_asset : forall bidask midp pre b t b1 r ef,
+  update bidask midp pre b t = (b1, r, ef) ->
+  (forall x, In x (pos_assets (b_accts b1)) -> In x (pos_assets (b_accts b)) \/ In x (q_assets (b_accts b))) /\
+  (forall x, In x (q_assets (b_accts b1)) -> In x (q_assets (b_accts b))) /\
+  (forall x, In x (fill_assets ef) -> In x (q_assets (b_accts b))).
+Proof. exact update_touch. Qed.
+Print Assumptions an_update_touches_no_new_asset.
+
+(** with the universe-driven alpha model and a dynamic universe, no order is ever filled (so no
+    position ever exists) in an asset before its entry time; an asset without entry date never trades *)
+Theorem no_fill_before_entry : forall cfg s es market tr,
+  c_alpha cfg = ASingle s -> c_univ cfg = DynamicU es -> run cfg market = Ok tr ->
+  forall t tx, In (t, OFill tx) tr -> exists e, In (t_asset tx, Some e) es /\ e <= t.
+Proof. exact dynamic_no_fill_before_entry. Qed.
+Print Assumptions no_fill_before_entry.
+
+(** the allocation row recorded at a rebalance instant t lists exactly the assets with entry <= t
+    (inclusive), each with the signal weight *)
+Theorem allocation_rows_list_exactly_the_entered_assets : forall cfg s es market tr,
+  c_alpha cfg = ASingle s -> c_univ cfg = DynamicU es -> run cfg market = Ok tr ->
+  forall t fw, In (t, OAlloc fw) tr ->
+  forall a, (In a (map fst fw) <-> exists e, In (a, Some e) es /\ e <= t) /\
+            (In a (map fst fw) -> w_find a fw = Some s).
+Proof. exact dynamic_rows_are_the_members. Qed.
+Print Assumptions allocation_rows_list_exactly_the_entered_assets.
+
+(** included from the first rebalance at or after entry ONWARD: in a run that does not raise, every
+    scheduled instant past the burn-in has a row, and it gives the signal weight to every member *)
+Theorem members_are_weighted_at_every_rebalance : forall cfg s market st evs sched,
+  c_alpha cfg = ASingle s -> session_init cfg = Ok (st, evs, sched) ->
+  tr_noerr (run_from cfg sched market st evs) ->
+  forall t, In t (map fst evs) -> reb_at cfg sched t = true ->
+  exists fw, In (t, OAlloc fw) (run_from cfg sched market st evs) /\
+             forall a, In a (universe_assets (c_univ cfg) t) -> w_find a fw = Some s.
+Proof. exact members_weighted_at_every_rebalance. Qed.
+Print Assumptions members_are_weighted_at_every_rebalance.
+
+(** any universe (static too): every fill and every allocation key is an asset the universe listed at
+    some instant up to then *)
+Theorem sessions_touch_only_admitted_assets : forall cfg s market tr,
+  c_alpha cfg = ASingle s -> run cfg market = Ok tr ->
+  forall t o, In (t, o) tr ->
+  match o with OFill tx => seen cfg t (t_asset tx) | OAlloc fw => RowOk cfg s t fw | _ => True end.
+Proof. exact session_touches_only_admitted_assets. Qed.
+Print Assumptions sessions_touch_only_admitted_assets.
+
+(** Non-vacuity: daily rebalancing over two weeks, B enters on the second Monday's close, C never:
+    A is bought after the first close, B only after its entry, C never; no error. *)
+Definition cfg19 : config :=
+  mkCfg (18267 * 86400) (18278 * 86400 + 86340)
+        (DynamicU [("A"%string, Some (18260 * 86400)); ("B"%string, Some (18274 * 86400 + 75600)); ("C"%string, None)])
+        (ASingle (1 # 2)%Q) (10000 # 1)%Q RDaily true 0%Q Fees.ZeroFee None None.
+Example session_level_nonvacuous :
+  exists tr, run cfg19 (fun _ => [("A"%string, (100 # 1)%Q); ("B"%string, (50 # 1)%Q); ("C"%string, (10 # 1)%Q)]) = Ok tr /\
+    tr_noerr tr /\
+    map (fun o => match snd o with OFill tx => (fst o, t_asset tx) | _ => (0, ""%string) end)
+        (filter (fun o => o_fill (snd o)) tr) =
+      [(18268 * 86400 + 52200, "A"%string); (18275 * 86400 + 52200, "A"%string); (18275 * 86400 + 52200, "B"%string)].
+Proof.
+  eexists. split; [vm_compute; reflexivity|]. split; [repeat constructor|]. vm_compute. reflexivity.
+Qed.
+Print Assumptions session_level_nonvacuous.
 
 (** Non-vacuity *)
 Example universe_nonvacuous :
